@@ -390,6 +390,7 @@ type localSub struct {
 
 type brokerRun struct {
 	sp     *sessions.MemProvider
+	tp     topics.Provider
 	svr    *service.Server
 	name   string
 	conns  map[string]*bConn
@@ -407,7 +408,8 @@ func newBrokerRun(auth string, maxqos int) *brokerRun {
 	defer registryMu.Unlock()
 	service.VerifEventFn = brokerEventFn
 	name := fmt.Sprintf("verif%d", atomic.AddUint64(&brokerSeq, 1))
-	topics.Register(name, topics.NewMemProvider())
+	tp := topics.NewMemProvider()
+	topics.Register(name, tp)
 	sp := sessions.NewMemProvider()
 	sessions.Register(name, sp)
 	selAuthOnce.Do(func() { mqttauth.Register("verifSelective", selAuth{}) })
@@ -415,7 +417,7 @@ func newBrokerRun(auth string, maxqos int) *brokerRun {
 	if auth == "" {
 		auth = "mockSuccess"
 	}
-	r := &brokerRun{sp: sp, name: name, conns: map[string]*bConn{}, locals: map[string]*localSub{}, auth: auth, tmo: 3 * time.Second}
+	r := &brokerRun{sp: sp, tp: tp, name: name, conns: map[string]*bConn{}, locals: map[string]*localSub{}, auth: auth, tmo: 3 * time.Second}
 	r.svr = &service.Server{BufferSize: 16384, TopicsProvider: name, SessionsProvider: name, Authenticator: auth, ConnectTimeout: 2}
 	var none service.OnPublishFunc
 	r.svr.Unsubscribe("verif/none", &none) // forces the configuration (provider look-up) now
